@@ -216,6 +216,11 @@ func main() {
 				}
 			}
 		}
+		if has("concdecode") {
+			for _, o := range codec.RunConcurrentFirstDecodes("cd", 40+*n/10, 12, 20000+int(*seed%1000)*100) {
+				emit(o)
+			}
+		}
 		if has("raw") {
 			for i := 0; i < *n && codec.Hangs < 4; i++ {
 				for _, r := range g.RawInputs() {
